@@ -568,6 +568,11 @@ func GenCase(prop string, seed uint64, thorough bool) *Case {
 			return genConcFault(prop, seed, g)
 		}
 	case "C09":
+		if r.p(0.12) {
+			// Close racing a transaction commit that is retried after manifest
+			// faults, with other writers (and compactions) in flight
+			return genConcFault(prop, seed, g)
+		}
 		if r.p(0.4) {
 			// concurrent writers under injected faults: everyone gets an answer
 			cc := genConc(prop, seed, g, thorough)
